@@ -15,7 +15,9 @@ PROOF_MODULES = ['ChamProofs.Props.C15']
 THEOREMS = ['ChamVerif.Sys.Cache.C15_crash_safe', 'ChamVerif.Sys.Cache.C15_build_stores', 'ChamVerif.Sys.Cache.C15_shared_tmp_counterexample',
             'ChamVerif.Sys.Cache.C15_sound', 'ChamVerif.Sys.Cache.C15_keyed_covers_partial', 'ChamVerif.Sys.Cache.C15_keyed_covers_counterexample',
             'ChamVerif.Sys.Cache.C15_probe_sane',
-            'ChamVerif.Sys.Cache.C15_key_separates_values']
+            'ChamVerif.Sys.Cache.C15_key_separates_values', 'ChamVerif.Sys.Cache.utf8_prefix_free',
+            'ChamVerif.Sys.Cache.C15_body_key_injective', 'ChamVerif.Sys.Cache.C15_body_key_ignore_counterexample',
+            'ChamVerif.Sys.Cache.C15_body_key_tie']
 LEVEL_TEXT = ('Proved in Lean over the file-system step model of ModuleLoader.build/get: two writers of one entry with unique temporary names, run '
               'under any schedule and crashing at any points (arbitrary event list, no length bound), leave an entry that is absent, unchanged, '
               'or the complete module of one writer — never empty, header-only or torn (C15_crash_safe, invariant over every step); an '
@@ -23,12 +25,15 @@ LEVEL_TEXT = ('Proved in Lean over the file-system step model of ModuleLoader.bu
               'soundness: if the key is injective in the keyed options, the code depends only on the influencing options and these are keyed, '
               'equal keys give equal code (C15_sound); that the options observed to influence compilation on this run are keyed is decided '
               'by the kernel over the regenerated option lists, except the three of finding D-15b (C15_keyed_covers_partial; the full '
-              'statement is refuted by C15_keyed_covers_counterexample). The step model is tied to the code by replaying the same '
+              'statement is refuted by C15_keyed_covers_counterexample). The source text enters the key as UTF-8 with the errors mode observed on the '
+              'real digest in this run (C15_body_key_tie: surrogatepass), and that encoding is injective on all strings, lone surrogates included '
+              '(C15_body_key_injective, from utf8_prefix_free; with the mode the code used before the D-15c fix two sources share their bytes: '
+              'C15_body_key_ignore_counterexample). The step model is tied to the code by replaying the same '
               'two-writer schedules (crashes included) on real directories through the guarded hook points; soundness is judged by '
               'compiling all single-option pairs in both orders into one cache directory, in one and across processes.')
 LEVEL_NOTE = ('Trusted / assumed: rename atomicity, mkstemp uniqueness (observed per run, necessary by the counterexample), SHA collision '
               'freeness (Injective hash), process crash not power loss (written data is visible); the byte-code file written by py_compile '
-              'is not modelled (exercised by the crash oracle through a real import). D-15a was repaired in /repo (fix: c134a76). Known '
+              'is not modelled (exercised by the crash oracle through a real import). D-15a (fix: c134a76) and D-15c (fix: 5fec397, lone surrogates ignored by the key) were repaired in /repo. Known '
               'finding D-15b: custom tokenizer / expression_types / default_marker influence compilation but are not keyed.')
 RULE = ('(a) every pair of configurations differing in exactly one of 13 constructor options, or in body / template class / filename, compiled in '
         'both orders into one cache directory (in-process and in two fresh processes with CHAMELEON_CACHE); (b) every crash point between the '
@@ -271,6 +276,10 @@ def pairs(rng, root):
     # body / class / filename
     for b1, b2 in itertools.combinations(BODIES[:4], 2):
         ps.append(({'body': b1, 'kw': {}}, {'body': b2, 'kw': {}}, 'body'))
+    # sources that differ in ways an encoding step could lose: lone surrogates, NUL, normalisation forms, trailing white space
+    close = ['<p>x</p>', '<p>x\ud800</p>', '<p>x\udfff</p>', '<p>x\x00</p>', '<p>x </p>', '<p>x</p>\n', '<p>\u00e9</p>', '<p>e\u0301</p>', '<p>x\ufeff</p>']
+    for b1, b2 in itertools.combinations(close, 2):
+        ps.append(({'body': b1, 'kw': {}}, {'body': b2, 'kw': {}}, 'body (close sources)'))
     ps.append(({'body': '<b>${1}</b>', 'kw': {}, 'cls': 'PageTemplate'}, {'body': '<b>${1}</b>', 'kw': {}, 'cls': 'PageTextTemplate'}, 'class'))
     d1, d2 = os.path.join(root, 'f1'), os.path.join(root, 'f2')
     os.makedirs(d1, exist_ok=True)
@@ -286,8 +295,11 @@ CRASH_SCRIPT = r'''
 import os, sys
 import chameleon.loader as L
 label = sys.argv[1]
+flush = sys.argv[2] == 'flush'
 def hook(l, *a):
-    if l in ('build:header', 'build:body'): a[1].flush()
+    # 'flush': what the writer has written so far is visible in the file (the torn states); 'noflush': a plain process crash -
+    # whatever still sits in the writer's user-space buffer is lost
+    if flush and l in ('build:header', 'build:body'): a[1].flush()
     if l == label: os._exit(7)
 L._verif_hook = hook
 from chameleon import PageTemplate
@@ -333,11 +345,11 @@ def oracle(ctx):
         # (b) crash at every step boundary, then a fresh process
         env = dict(os.environ, MALTHE_CHAMELEON_VERIF='1')
         expected = subprocess.run(['/venv/bin/python', '-c', AFTER_SCRIPT], capture_output=True, text=True, env={k: v for k, v in env.items() if k != 'CHAMELEON_CACHE'}).stdout
-        for label in LABELS:
-            d = os.path.join(root, 'crash_' + label.replace(':', '_'))
+        for label, mode in [(l, m) for l in LABELS for m in ('flush', 'noflush')]:
+            d = os.path.join(root, 'crash_' + label.replace(':', '_') + '_' + mode)
             os.mkdir(d)
             e2 = dict(env, CHAMELEON_CACHE=d)
-            p = subprocess.run(['/venv/bin/python', '-c', CRASH_SCRIPT, label], capture_output=True, text=True, env=e2)
+            p = subprocess.run(['/venv/bin/python', '-c', CRASH_SCRIPT, label, mode], capture_output=True, text=True, env=e2)
             ctx.count('evaluations')
             nt += 1
             if p.returncode != 7:
@@ -354,10 +366,10 @@ def oracle(ctx):
                     except SyntaxError:
                         complete = False
                     if not complete:
-                        ctx.violation('after a crash at %s the cache holds a truncated entry' % label, {'label': label, 'entry': n}, actual=data[-80:].decode('utf-8', 'replace'))
+                        ctx.violation('after a crash at %s (%s) the cache holds a truncated entry' % (label, mode), {'label': label, 'mode': mode, 'entry': n}, actual=data[-80:].decode('utf-8', 'replace'))
             q = subprocess.run(['/venv/bin/python', '-c', AFTER_SCRIPT], capture_output=True, text=True, env=e2)
             if q.returncode != 0 or q.stdout != expected:
-                ctx.violation('a process started after a crash at %s does not render as without a cache' % label, {'label': label},
+                ctx.violation('a process started after a crash at %s (%s) does not render as without a cache' % (label, mode), {'label': label, 'mode': mode},
                               expected=expected, actual={'rc': q.returncode, 'out': q.stdout, 'err': q.stderr[-300:]})
         # (c) two writers, judged directly: the entry is absent or complete
         for s in all_schedules(4 if ctx.tier == 'quick' else 6):
